@@ -63,6 +63,38 @@ pub const LIMITS: [(Fmt, usize); 4] = [(Fmt::Msgpack, 1024), (Fmt::Json, 128), (
 
 /// A document of format `f` with `d` collections nested around a scalar.
 pub fn nested(f: Fmt, shape: Shape, d: usize) -> Vec<u8> {
+    nested_core(f, shape, d, false)
+}
+
+/// Like `nested`, but with `empty_core` the innermost of the `d` collections is
+/// empty (there is no scalar inside): d levels of collections, nothing else.
+pub fn nested_core(f: Fmt, shape: Shape, d: usize, empty_core: bool) -> Vec<u8> {
+    if !empty_core || d < 2 {
+        return nested_scalar(f, shape, d, None);
+    }
+    // d-1 collections around an empty collection of the kind the shape has at level d-1
+    let mut rng = Rng::new(match shape {
+        Shape::Random(s) => s,
+        _ => 0,
+    });
+    let mut last_is_array = true;
+    for i in 0..d {
+        last_is_array = shape.is_array(i, &mut rng);
+    }
+    nested_scalar(f, shape, d - 1, Some(last_is_array))
+}
+
+fn nested_scalar(f: Fmt, shape: Shape, d: usize, core: Option<bool>) -> Vec<u8> {
+    let core_text = match core {
+        None => "1",
+        Some(true) => "[]",
+        Some(false) => "{}",
+    };
+    let core_mp: u8 = match core {
+        None => 0x01,
+        Some(true) => 0x90,
+        Some(false) => 0x80,
+    };
     let mut rng = Rng::new(match shape {
         Shape::Random(s) => s,
         _ => 0,
@@ -75,7 +107,7 @@ pub fn nested(f: Fmt, shape: Shape, d: usize) -> Vec<u8> {
             for a in &kinds {
                 s.push_str(if *a { "[" } else { "{\"a\":" });
             }
-            s.push('1');
+            s.push_str(core_text);
             for a in kinds.iter().rev() {
                 s.push(if *a { ']' } else { '}' });
             }
@@ -88,7 +120,7 @@ pub fn nested(f: Fmt, shape: Shape, d: usize) -> Vec<u8> {
             for a in kinds.iter().skip(1) {
                 s.push_str(if *a { "[" } else { "{a = " });
             }
-            s.push('1');
+            s.push_str(core_text);
             for a in kinds.iter().skip(1).rev() {
                 s.push(if *a { ']' } else { '}' });
             }
@@ -105,7 +137,7 @@ pub fn nested(f: Fmt, shape: Shape, d: usize) -> Vec<u8> {
                 for _ in 0..d {
                     b.push(0x81);
                 }
-                b.push(0x01);
+                b.push(core_mp);
                 for _ in 0..d {
                     b.push(0x01);
                 }
@@ -118,7 +150,7 @@ pub fn nested(f: Fmt, shape: Shape, d: usize) -> Vec<u8> {
                     b.extend_from_slice(&[0x81, 0xa1, b'a']);
                 }
             }
-            b.push(0x01);
+            b.push(core_mp);
             b
         }
     }
@@ -189,7 +221,7 @@ pub fn inproc(f: Fmt, shape: Shape, to: Fmt, thorough: bool, acc: &mut Acc) -> O
     let mut last_ok: Option<usize> = None;
     let mut first_err: Option<usize> = None;
     for d in depths(limit, f, thorough) {
-        let mut inputs = vec![(nested(f, shape, d), "flow")];
+        let mut inputs = vec![(nested(f, shape, d), "flow"), (nested_core(f, shape, d, true), "flow_empty_core")];
         if f == Fmt::Yaml && d <= 300 && shape != Shape::KeyPosition {
             inputs.push((nested_yaml_block(shape, d), "block"));
         }
@@ -214,6 +246,12 @@ pub fn inproc(f: Fmt, shape: Shape, to: Fmt, thorough: bool, acc: &mut Acc) -> O
                     return None;
                 }
                 classes.push((fmts::from_name(from).to_string(), s));
+            }
+            if style == "flow_empty_core" {
+                // documents whose innermost collection is empty only take part in the
+                // slice/reader comparison (their limit may legitimately differ by one)
+                acc.count("empty_core_documents");
+                continue;
             }
             // monotonicity and the limit are judged on the explicit runs
             let explicit_ok = classes[0].1 == "ok";
